@@ -457,11 +457,22 @@ def run_c15(pid):
         def drive(ip):
             i, part = ip
             tp = os.path.join(wd, "trace_%s_%d.ndjson" % (profile, i))
-            return tp, run_drive("writer", {"out": tp, "jobs": part}, wd, profile=profile, tag="%s%d" % (profile, i), timeout=3000)
+            tps, incidents = run_drive_items("writer", {"out": tp, "jobs": part}, wd, profile=profile, tag="%s%d" % (profile, i), timeout=3000)
+            return tps, incidents, part
 
-        outs = parallel(drive, [(i, p) for i, p in enumerate(parts) if p], n=8)
-        runs += sum(o[1]["runs"] for o in outs)
-        events += sum(o[1]["events"] for o in outs)
+        outs = []
+        for tps, incidents, part in parallel(drive, [(i, p) for i, p in enumerate(parts) if p], n=8):
+            outs += [(tp, None) for tp in tps]
+            for idx, size in incidents:
+                # a constructor / write that asks for more than 4 GiB in one piece is not "a writer or an error"
+                j = part[idx - 1]
+                v.violation("%s rule=C15.new-no-panic single-request profile=%s" % (pid, profile),
+                            "run %d asked for a single allocation of %d bytes: %s" % (idx, size, json.dumps({k: j[k] for k in j if k != "pcm"})[:600]),
+                            {"job": {k: j[k] for k in j if k != "pcm"}, "size": size})
+        for tp, _ in outs:
+            n_ev = sum(1 for _l in open(tp))
+            events += n_ev
+        runs += len(parts) and sum(len(p) for p in parts if p)
         for tp, _ in outs:
             for e in read_ndjson(tp):
                 if e.get("ev") == "new":
